@@ -39,6 +39,9 @@ type Site struct {
 	OK    bool
 	How   string
 	Why   string
+	// for index sites: the operands and which halves are still open
+	X, I               ssa.Value
+	NeedNonNeg, NeedLT bool
 }
 
 // Domain declares that the values held by a location class are valid indices
@@ -65,6 +68,12 @@ type Engine struct {
 	LenLo func(c *Fn, x ssa.Value) (int64, bool)
 	// UpperOf lets the client name an expression L with i < L for library results.
 	UpperOf func(c *Fn, i ssa.Value) []string
+	// BoundedOf lets the client prove that v has a finite upper bound of the
+	// size of loaded data.
+	BoundedOf func(c *Fn, v ssa.Value) bool
+	// NonNegOf lets the client prove v >= 0 from what is ever stored in the
+	// location class v is read from.
+	NonNegOf func(c *Fn, v ssa.Value) bool
 
 	fns   map[*ssa.Function]*Fn
 	pmemo map[*ssa.Parameter]interval.Iv
@@ -87,6 +96,7 @@ type relFact struct {
 	block  *ssa.BasicBlock
 	succ   int
 	a, b   string
+	bv     ssa.Value
 	strict bool
 }
 
@@ -133,15 +143,15 @@ func (c *Fn) collect() {
 		add := func(succ int, o token.Token) {
 			switch o {
 			case token.LSS:
-				c.rel = append(c.rel, relFact{iff.Block(), succ, xs, ys, true})
+				c.rel = append(c.rel, relFact{iff.Block(), succ, xs, ys, y, true})
 			case token.LEQ:
-				c.rel = append(c.rel, relFact{iff.Block(), succ, xs, ys, false})
+				c.rel = append(c.rel, relFact{iff.Block(), succ, xs, ys, y, false})
 			case token.GTR:
-				c.rel = append(c.rel, relFact{iff.Block(), succ, ys, xs, true})
+				c.rel = append(c.rel, relFact{iff.Block(), succ, ys, xs, x, true})
 			case token.GEQ:
-				c.rel = append(c.rel, relFact{iff.Block(), succ, ys, xs, false})
+				c.rel = append(c.rel, relFact{iff.Block(), succ, ys, xs, x, false})
 			case token.EQL:
-				c.rel = append(c.rel, relFact{iff.Block(), succ, xs, ys, false}, relFact{iff.Block(), succ, ys, xs, false})
+				c.rel = append(c.rel, relFact{iff.Block(), succ, xs, ys, y, false}, relFact{iff.Block(), succ, ys, xs, x, false})
 			}
 		}
 		add(0, op)
@@ -185,7 +195,7 @@ func (c *Fn) LenExprs(x ssa.Value, d int) []string {
 	}
 	switch v := x.(type) {
 	case *ssa.MakeSlice:
-		out = append(out, c.F.E(v.Len))
+		out = append(out, c.valueExprs(v.Len)...)
 	case *ssa.Slice:
 		if v.Low == nil || isConst(v.Low, 0) {
 			if v.High != nil {
@@ -229,6 +239,18 @@ func (c *Fn) LenExprs(x ssa.Value, d int) []string {
 	return out
 }
 
+// valueExprs: renderings equal to v: its own, and for a load with a single
+// reaching store the stored value's.
+func (c *Fn) valueExprs(v ssa.Value) []string {
+	out := []string{c.F.E(v)}
+	if u, ok := v.(*ssa.UnOp); ok && u.Op == token.MUL {
+		if vals, ok := c.F.ReachingStores(u); ok && len(vals) == 1 {
+			out = append(out, c.F.E(vals[0]))
+		}
+	}
+	return out
+}
+
 func isSlice(t types.Type) bool {
 	_, ok := t.Underlying().(*types.Slice)
 	return ok
@@ -247,8 +269,12 @@ func (c *Fn) LenLo(x ssa.Value, at *ssa.BasicBlock, d int) int64 {
 			lo = v
 		}
 	}
-	for _, s := range c.LenExprs(x, 0) {
-		if g := c.Q.GuardBound(s, at); g.LoOK {
+	for k, s := range c.LenExprs(x, 0) {
+		base := interval.Iv{}
+		if k == 0 {
+			base = interval.Iv{LoOK: true, Lo: 0}
+		}
+		if g := c.Q.GuardBoundFrom(s, at, base); g.LoOK {
 			up(g.Lo)
 		}
 	}
@@ -359,6 +385,24 @@ func (c *Fn) lt(i ssa.Value, L string, strict bool, at *ssa.BasicBlock, d int) b
 			}
 		}
 	}
+	// transitivity through one intermediate bound: e < B and B <= L
+	{
+		tried := map[string]bool{}
+		for _, r := range c.rel {
+			if r.a != e || r.b == L || tried[r.b+fmt.Sprint(r.strict)] {
+				continue
+			}
+			tried[r.b+fmt.Sprint(r.strict)] = true
+			if !c.holds(e, r.b, r.strict, at) {
+				continue
+			}
+			// e < B: B <= L suffices; e <= B: B < L needed (for a strict goal)
+			need := strict && !r.strict
+			if c.holds(r.b, L, need, at) || (r.bv != nil && availableAt(r.bv, at) && c.lt(r.bv, L, need, at, d+1)) {
+				return true
+			}
+		}
+	}
 	switch v := i.(type) {
 	case *ssa.BinOp:
 		k, isK := ssau.ConstInt(v.Y)
@@ -463,6 +507,16 @@ func (c *Fn) lt(i ssa.Value, L string, strict bool, at *ssa.BasicBlock, d int) b
 	return false
 }
 
+// availableAt: the value is defined in a block dominating at (so facts about
+// it may be evaluated there).
+func availableAt(v ssa.Value, at *ssa.BasicBlock) bool {
+	in, ok := v.(ssa.Instruction)
+	if !ok || in.Block() == nil {
+		return true
+	}
+	return in.Block() == at || in.Block().Dominates(at)
+}
+
 // ltEnd: i < L for control at the end of block b (every fact that holds at
 // the start of b, or that b's position in the graph implies).
 func (c *Fn) ltEnd(i ssa.Value, L string, strict bool, b *ssa.BasicBlock, d int) bool {
@@ -499,6 +553,9 @@ func (c *Fn) NonNeg(i ssa.Value, at *ssa.BasicBlock) bool {
 			return true
 		}
 	}
+	if c.E.NonNegOf != nil && c.E.NonNegOf(c, i) {
+		return true
+	}
 	return false
 }
 
@@ -522,19 +579,20 @@ func (e *Engine) Sites(fn *ssa.Function) []Site {
 	add := func(in ssa.Instruction, kind, desc string, ok bool, how, why string) {
 		out = append(out, Site{Fn: fn, Instr: in, Kind: kind, Desc: desc, OK: ok, How: how, Why: why})
 	}
+	addIdx := func(in ssa.Instruction, kind string, x, i ssa.Value) {
+		ok, how, why, nn, lt := c.indexParts(x, i, in)
+		out = append(out, Site{Fn: fn, Instr: in, Kind: kind, Desc: c.F.Plain(x) + "[" + c.F.Plain(i) + "]", OK: ok, How: how, Why: why, X: x, I: i, NeedNonNeg: nn, NeedLT: lt})
+	}
 	for _, b := range fn.Blocks {
 		for _, in := range b.Instrs {
 			switch x := in.(type) {
 			case *ssa.IndexAddr:
-				ok, how, why := c.index(x.X, x.Index, in)
-				add(in, "index", c.F.Plain(x.X)+"["+c.F.Plain(x.Index)+"]", ok, how, why)
+				addIdx(in, "index", x.X, x.Index)
 			case *ssa.Index:
-				ok, how, why := c.index(x.X, x.Index, in)
-				add(in, "index", c.F.Plain(x.X)+"["+c.F.Plain(x.Index)+"]", ok, how, why)
+				addIdx(in, "index", x.X, x.Index)
 			case *ssa.Lookup:
 				if bt, ok := x.X.Type().Underlying().(*types.Basic); ok && bt.Info()&types.IsString != 0 {
-					ok, how, why := c.index(x.X, x.Index, in)
-					add(in, "string-index", c.F.Plain(x.X)+"["+c.F.Plain(x.Index)+"]", ok, how, why)
+					addIdx(in, "string-index", x.X, x.Index)
 				}
 			case *ssa.Slice:
 				ok, how, why := c.slice(x)
@@ -565,20 +623,33 @@ func (e *Engine) Sites(fn *ssa.Function) []Site {
 }
 
 func (c *Fn) index(x, i ssa.Value, in ssa.Instruction) (bool, string, string) {
+	ok, how, why, _, _ := c.indexParts(x, i, in)
+	return ok, how, why
+}
+
+func (c *Fn) indexParts(x, i ssa.Value, in ssa.Instruction) (ok bool, how, why string, needNN, needLT bool) {
 	at := in.Block()
 	if c.E.IndexOK != nil {
 		if ok, how := c.E.IndexOK(c, x, i, in); ok {
-			return true, how, ""
+			return true, how, "", false, false
 		}
 	}
-	// arrays indexed by constants are checked by the compiler
-	if !c.NonNeg(i, at) {
-		return false, "", "the index " + c.F.Plain(i) + " is not proven non-negative"
+	if ok, how := c.sortCallback(x, i); ok {
+		return true, how, "", false, false
 	}
-	if c.Below(i, x, true, at) {
-		return true, "index < len by guard, loop header, construction or interval", ""
+	needNN = !c.NonNeg(i, at)
+	needLT = !c.Below(i, x, true, at)
+	switch {
+	case needNN && needLT:
+		why = "the index " + c.F.Plain(i) + " is proven neither non-negative nor below len(" + c.F.Plain(x) + ")"
+	case needNN:
+		why = "the index " + c.F.Plain(i) + " is not proven non-negative"
+	case needLT:
+		why = "the index " + c.F.Plain(i) + " is not proven below len(" + c.F.Plain(x) + ")"
+	default:
+		return true, "0 <= index < len by guard, loop header, construction or interval", "", false, false
 	}
-	return false, "", "the index " + c.F.Plain(i) + " is not proven below len(" + c.F.Plain(x) + ")"
+	return false, "", why, needNN, needLT
 }
 
 func (c *Fn) slice(x *ssa.Slice) (bool, string, string) {
@@ -608,6 +679,15 @@ func (c *Fn) slice(x *ssa.Slice) (bool, string, string) {
 	return true, "0 <= low <= len", ""
 }
 
+// boundedByData: v is read from loaded data (a field), not computed from a
+// request parameter: its size is that of something already in memory.
+func (c *Fn) boundedByData(v ssa.Value, at *ssa.BasicBlock) bool {
+	if c.E.BoundedOf != nil {
+		return c.E.BoundedOf(c, v)
+	}
+	return false
+}
+
 // belowCap: hi <= cap(x) through a guard on cap or because x[:0] keeps its capacity.
 func (c *Fn) belowCap(hi, x ssa.Value, at *ssa.BasicBlock) bool {
 	return c.lt(hi, "cap("+c.F.E(x)+")", false, at, 0)
@@ -616,10 +696,10 @@ func (c *Fn) belowCap(hi, x ssa.Value, at *ssa.BasicBlock) bool {
 func (c *Fn) makeSlice(x *ssa.MakeSlice) (bool, string, string) {
 	at := x.Block()
 	l := c.Q.At(x.Len, at)
-	if !(l.LoOK && l.Lo >= 0) {
+	if !(l.LoOK && l.Lo >= 0) && !c.NonNeg(x.Len, at) {
 		return false, "", "the length " + c.F.Plain(x.Len) + " is not proven non-negative"
 	}
-	if !l.HiOK {
+	if !l.HiOK && !c.boundedByData(x.Len, at) {
 		return false, "", "the length " + c.F.Plain(x.Len) + " has no upper bound: an arbitrary request would allocate without limit"
 	}
 	if x.Cap != x.Len {
@@ -627,7 +707,7 @@ func (c *Fn) makeSlice(x *ssa.MakeSlice) (bool, string, string) {
 		if !(k.LoOK && k.Lo >= 0) {
 			return false, "", "the capacity " + c.F.Plain(x.Cap) + " is not proven non-negative"
 		}
-		if !k.HiOK {
+		if !k.HiOK && !c.boundedByData(x.Cap, at) {
 			return false, "", "the capacity " + c.F.Plain(x.Cap) + " has no upper bound: an arbitrary request would allocate without limit"
 		}
 		if !(l.HiOK && l.Hi <= k.Lo) && !c.leqVals(x.Len, x.Cap, at) {
@@ -838,4 +918,94 @@ func (e *Engine) callResult(c *Fn, call *ssa.Call, at *ssa.BasicBlock) (interval
 	}
 	e.rmemo[fn] = out
 	return out, true
+}
+
+// sortCallback: fn is the less function handed to sort.Slice/SliceStable
+// together with the very slice variable it indexes: the sort calls it only
+// with 0 <= i, j < len(slice).
+func (c *Fn) sortCallback(x, i ssa.Value) (bool, string) {
+	p, ok := i.(*ssa.Parameter)
+	if !ok || c.fn.Parent() == nil || len(c.fn.Params) != 2 {
+		return false, ""
+	}
+	_ = p
+	u, ok := x.(*ssa.UnOp)
+	if !ok || u.Op != token.MUL {
+		return false, ""
+	}
+	fv, ok := u.X.(*ssa.FreeVar)
+	if !ok {
+		return false, ""
+	}
+	// the closure never assigns the captured variable
+	for _, ref := range *fv.Referrers() {
+		if st, ok := ref.(*ssa.Store); ok && st.Addr == ssa.Value(fv) {
+			return false, ""
+		}
+	}
+	fvIdx := -1
+	for k, f := range c.fn.FreeVars {
+		if f == fv {
+			fvIdx = k
+		}
+	}
+	if fvIdx < 0 {
+		return false, ""
+	}
+	parent := c.fn.Parent()
+	found, good := 0, 0
+	ssau.ForEachInstr(parent, false, func(in ssa.Instruction) {
+		mc, ok := in.(*ssa.MakeClosure)
+		if !ok || mc.Fn != ssa.Value(c.fn) {
+			return
+		}
+		found++
+		cell := mc.Bindings[fvIdx]
+		refs := mc.Referrers()
+		if refs == nil || len(*refs) != 1 {
+			return
+		}
+		call, ok := (*refs)[0].(*ssa.Call)
+		if !ok {
+			return
+		}
+		n := ssau.CallName(call)
+		if n != "sort.Slice" && n != "sort.SliceStable" {
+			return
+		}
+		a := call.Common().Args
+		if len(a) != 2 || a[1] != ssa.Value(mc) {
+			return
+		}
+		mi, ok := a[0].(*ssa.MakeInterface)
+		if !ok {
+			return
+		}
+		ld, ok := mi.X.(*ssa.UnOp)
+		if !ok || ld.Op != token.MUL || ld.X != cell {
+			return
+		}
+		// no store to the variable between its load and the sort
+		if ld.Block() != call.Block() {
+			return
+		}
+		seen := false
+		for _, x := range call.Block().Instrs {
+			if x == ssa.Instruction(ld) {
+				seen = true
+				continue
+			}
+			if x == ssa.Instruction(call) {
+				break
+			}
+			if st, ok := x.(*ssa.Store); ok && seen && st.Addr == cell {
+				return
+			}
+		}
+		good++
+	})
+	if found > 0 && found == good {
+		return true, "index parameter of the less function of sort.Slice over the same slice variable"
+	}
+	return false, ""
 }
